@@ -8,6 +8,7 @@ Generated:
                       there), cross-checked with the literal table in the source when its shape is recognised
   arrayPrefix         type_map(list[int]) minus type_map(int)
   typeVarBranch       whether type_map(type_from_format(x)) == x
+  newGuard            how DataClassPayload(.WID).__new__ reach convert_to_payload (AST): always | ifNoFormatList | unknown
   shipped             every VariablePayload subclass defined in the ipv8 package outside ipv8.test:
                       format_list (strings / nested classes / [class]), names, hooks found with dir(), and the
                       `__init__` defined in the class body, if any (parameters must be exactly the field names,
@@ -25,6 +26,7 @@ import sys
 from vlib import REPO, TranslatorError
 
 SKIP_MODULE_PARTS = (".test", "lan_addresses")
+IMPORT_FAILURES: dict = {}
 
 
 def shipped_classes():
@@ -37,8 +39,10 @@ def shipped_classes():
             continue
         try:
             importlib.import_module(m.name)
-        except Exception:  # noqa: BLE001  optional dependencies
-            continue
+        except ImportError as e:   # optional dependencies (netifaces, WinDLL): recorded in the evidence
+            IMPORT_FAILURES[m.name] = f"{type(e).__name__}: {e}"[:120]
+        except Exception as e:  # noqa: BLE001  a module of the package that no longer imports would hide its payloads
+            raise TranslatorError(f"module {m.name} does not import: {type(e).__name__}: {e}") from e
 
     def subs(c):
         out = set()
@@ -50,6 +54,10 @@ def shipped_classes():
     res = [c for c in subs(VariablePayload)
            if c.__module__.startswith("ipv8.") and ".test" not in c.__module__ and "<locals>" not in c.__qualname__]
     return sorted(res, key=lambda c: (c.__module__, c.__qualname__))
+
+
+class UnsupportedInit(Exception):
+    """a shipped class whose own __init__ is outside the model: listed, not translated (the theorems do not cover it)"""
 
 
 def lstr(s: str) -> str:
@@ -90,7 +98,7 @@ def class_init_info(cls):
                 a = st.args
                 params = [x.arg for x in a.args][1:]
                 if a.vararg or a.kwonlyargs or a.posonlyargs or params != list(cls.names):
-                    raise TranslatorError(f"{cls.__name__}.__init__ is not of the shape (self, <names>[, **kwargs])")
+                    raise UnsupportedInit(f"{cls.__name__}.__init__ is not of the shape (self, <names>[, **kwargs])")
                 nd = len(a.defaults)
                 return a.kwarg is not None, params[len(params) - nd:] if nd else []
     return None, []
@@ -155,6 +163,30 @@ def type_map_table():
     return table, prefix, tv
 
 
+def new_guard():
+    """how DataClassPayload.__new__ and DataClassPayloadWID.__new__ reach convert_to_payload: 'always' (a plain statement
+    of the method), 'ifNoFormatList' (`if not cls.format_list:`), else 'unknown'; both classes must agree"""
+    path = REPO / "ipv8/messaging/payload_dataclass.py"
+    tree = ast.parse(path.read_text())
+    kinds = []
+    for cname in ("DataClassPayload", "DataClassPayloadWID"):
+        cls = next((n for n in tree.body if isinstance(n, ast.ClassDef) and n.name == cname), None)
+        fn = next((n for n in (cls.body if cls else []) if isinstance(n, ast.FunctionDef) and n.name == "__new__"), None)
+        if fn is None:
+            kinds.append("unknown")
+            continue
+        kind = "unknown"
+        for st in fn.body:
+            if isinstance(st, ast.Expr) and isinstance(st.value, ast.Call) and ast.unparse(st.value.func) == "convert_to_payload":
+                kind = "always"
+            elif isinstance(st, ast.If) and ast.unparse(st.test) == "not cls.format_list" and not st.orelse and any(
+                    isinstance(x, ast.Expr) and isinstance(x.value, ast.Call)
+                    and ast.unparse(x.value.func) == "convert_to_payload" for x in st.body):
+                kind = "ifNoFormatList"
+        kinds.append(kind)
+    return kinds[0] if len(set(kinds)) == 1 else "unknown"
+
+
 def overlay_formats():
     out = []
     for path in sorted((REPO / "ipv8").rglob("*.py")):
@@ -185,6 +217,7 @@ def translate():
            "def typeMapTable : List (String × String) := " + llist(f"({lstr(a)}, {lstr(b)})" for a, b in table), "",
            "def arrayPrefix : String := " + lstr(prefix), "",
            "def typeVarBranch : Bool := " + ("true" if tv else "false"), "",
+           "def newGuard : NewGuard := ." + new_guard(), "",
            "def shipped : List SDef := ["]
     rows = []
     meta = {"registered_formats": len(formats), "type_map_table": table, "shipped": 0, "shipped_with_hooks": 0,
@@ -195,7 +228,11 @@ def translate():
         fmts = [lean_fmt(f) for f in c.format_list]
         hooks_p = sorted(a[len("fix_pack_"):] for a in dir(c) if a.startswith("fix_pack_"))
         hooks_u = sorted(a[len("fix_unpack_"):] for a in dir(c) if a.startswith("fix_unpack_"))
-        varkw, dflt = class_init_info(c)
+        try:
+            varkw, dflt = class_init_info(c)
+        except UnsupportedInit as e:
+            meta.setdefault("shipped_outside_model", []).append(str(e))
+            continue
         ui = "none" if varkw is None else f"some {'true' if varkw else 'false'}"
         rows.append("  { name := " + lstr(f"{c.__module__}.{c.__qualname__}") + ", fmts := " + llist(fmts)
                     + ",\n    names := " + llist(lstr(n) for n in c.names) + ", userInit := " + ui
@@ -207,6 +244,7 @@ def translate():
         meta["shipped_with_init"] += varkw is not None
         meta["shipped_bits"] += "bits" in c.format_list
         meta["shipped_nested"] += any(not isinstance(f, str) for f in c.format_list)
+    meta["import_failures"] = dict(IMPORT_FAILURES)
     out.append(",\n".join(rows))
     out += ["]", "", "end Ipv8.C20.Gen", ""]
     return "\n".join(out), meta
